@@ -2152,6 +2152,7 @@ def run_r4(repo: Repo, res: Result) -> None:
         if not rets:
             raise AnalysisError(f"{m.fq}: returns nothing")
         contribs, removals, unknown = [], [], []
+        mispaired: list[str] = []
         accs: set[str] = set()
         for r in rets:
             if isinstance(r.value, ast.Name):
@@ -2160,6 +2161,7 @@ def run_r4(repo: Repo, res: Result) -> None:
             contribs += d.contribs
             removals += d.removals
             unknown += d.unknown
+            mispaired += d.mispaired
         anchor = rets[0]
         loops = []
         for c in contribs:
@@ -2168,6 +2170,10 @@ def run_r4(repo: Repo, res: Result) -> None:
                     loops.append(b.loop)
         key_node = loops[0] if loops else (contribs[0].node if contribs and contribs[0].node is not None else anchor)
         base_key = repo.key(view, key_node)
+        if mispaired:
+            res.add("C11.R4", base_key + " [result per key]", False, mispaired[0] + ": a key may be stored with the search result of another key", where(view, key_node), kind="structural")
+            n += 4
+            continue
         if unknown or not contribs:
             res.undecide("C11.R4", base_key, "the construction of the query result is not recognised: " + ("; ".join(unknown[:2]) or "no entry is ever stored"), where(view, key_node))
             n += 4  # the query was found; its four obligations are undecided, not missing
